@@ -552,8 +552,7 @@ func init() {
 
 func init() {
 	models["time.Now"] = func(it *Interp, a []Val) Val {
-		v := Var(it.p.freshName("wallclock"), SInt)
-		it.p.sources = append(it.p.sources, Source{Kind: "time", Tag: "env:time.Now", Terms: []*Term{v}})
+		v := it.freshTime("env:time.Now")
 		it.p.envReads = append(it.p.envReads, "time.Now")
 		return TimeV{v}
 	}
